@@ -33,6 +33,10 @@ class Info:
             self.subs.append(f"c{i}")
             self.kind[f"c{i}"] = "custom"
             self.dim[f"c{i}"] = c["dim"]
+        for i, b in enumerate(spec.get("bare", [])):
+            self.subs.append(f"b{i}")
+            self.kind[f"b{i}"] = b["kind"]
+            self.dim[f"b{i}"] = (b.get("fdim") or (b.get("fock", 0) + 1)) if b["kind"] == "fock" else 2
         self.ce_members: Dict[str, List[str]] = {}
         for i, members in enumerate(spec["ces"]):
             ms = []
@@ -114,6 +118,15 @@ def world_and_layout(draw, min_envs=1, max_envs=3, max_customs=2, need_ce=None, 
         if rest and draw(st.booleans()):
             ces.append(rest)
     spec = dict(envs=envs, customs=customs, ces=ces)
+    bare = []
+    if draw(st.integers(0, 3)) == 0 and joint() <= max_joint // 4:
+        for _ in range(draw(st.integers(1, 2))):
+            if draw(st.booleans()):
+                fd = draw(st.sampled_from([2, 3]))
+                bare.append(dict(kind="fock", fdim=fd, fock=draw(st.integers(0, fd - 1))))
+            else:
+                bare.append(dict(kind="pol", pol=draw(st.sampled_from(["H", "V", "R", "L"]))))
+        spec["bare"] = bare
     cls = st.sampled_from(classes or STATE_CLASSES)
     # ---- layout ----
     layout = []
@@ -155,6 +168,7 @@ def world_and_layout(draw, min_envs=1, max_envs=3, max_customs=2, need_ce=None, 
     for i in range(len(envs)):
         all_subs += [f"e{i}.f", f"e{i}.p"]
     all_subs += [f"c{i}" for i in range(len(customs))]
+    all_subs += [f"b{i}" for i in range(len(bare))]
     for s in all_subs:
         if s not in placed:
             lvl = draw(st.sampled_from(list(levels)))
